@@ -526,6 +526,9 @@ theorem marshal_canon_bcrypt (vals : Vals) :
     Scheme.fieldVal sunmd5TI ((fieldIndex sunmd5TI "Salt", fv) :: vals) "Sum" = Scheme.fieldVal sunmd5TI vals "Sum" := rfl
 @[flowval] theorem readField_sunmd5_Separator (vals : Vals) :
     readField (.struct sunmd5TI vals) "Separator" = some (if (Scheme.fieldVal sunmd5TI vals "Separator") == .nilPtr then .nil else .ptr (Scheme.fieldVal sunmd5TI vals "Separator")) := rfl
+@[flowval] theorem writeField_sunmd5_Separator (vals : Vals) (fv : FVal) :
+    writeField (.struct sunmd5TI vals) "Separator" (.ptr fv) = some (.struct sunmd5TI ((fieldIndex sunmd5TI "Separator", fv) :: vals)) := rfl
+@[flowval] theorem fieldInfo_sunmd5_saltScheme : fieldInfo sunmd5TI "saltScheme" = none := by decide
 @[flowval] theorem fieldVal_sunmd5_set_Separator_HashPrefix (vals : Vals) (fv : FVal) :
     Scheme.fieldVal sunmd5TI ((fieldIndex sunmd5TI "Separator", fv) :: vals) "HashPrefix" = Scheme.fieldVal sunmd5TI vals "HashPrefix" := rfl
 @[flowval] theorem fieldVal_sunmd5_set_Separator_Rounds (vals : Vals) (fv : FVal) :
